@@ -42,7 +42,7 @@ Print Assumptions delivered_only_to_recipients.
 Example first_message_delivered :
   let run := fold_left (λ st o, let r := step [] st.1 o in (r.1, (st.2 ++ [r.2])%list)) in
   let ops := [EConnect 0%nat "sub" "c-sub" "" "" 60 None 10; ESubscribe "sub" 1 [("#", 0)] 20;
-              EConnect 0%nat "pub" "c-pub" "" "" 60 None 30; EPublish "pub" (Publish "a" "first" 1 false) false 5 40] in
+              EConnect 0%nat "pub" "c-pub" "" "" 60 None 30; EPublish "pub" (Publish "a" "first" 1 false false) false 5 40] in
   nth 3%nat (run ops (cnew 1%nat, [])).2 [] =
     [Appended 0%nat "_default/a" "first" 1 false; Out "pub" (OPubAck 5); Deadline "pub" 120000; Out "sub" (OPublish "a" "first" 0 false false 0)].
 Proof. vm_compute. done. Qed.
